@@ -81,9 +81,12 @@ Proof.
   unfold Fl, wait_one. destruct (find_bg _ _); [|reflexivity].
   destruct (reap _) as [p racy]. destruct (status_wrong _); simpl; rewrite mark_racy_files; reflexivity.
 Qed.
-Lemma fil_wait args st : Fl (cmd_wait args st) = s_files st.
+Lemma fil_wait cfg args st : Fl (cmd_wait cfg args st) = s_files st.
 Proof.
-  unfold cmd_wait. destruct args as [|a [|b r]]; [apply fil_wait_all|apply fil_wait_one|reflexivity].
+  unfold cmd_wait, timed_out_state. destruct args as [|a [|b r]]; [| |reflexivity].
+  - destruct (wait_times_out _ _); [unfold Fl; simpl; apply mark_racy_files|apply fil_wait_all].
+  - destruct (find_bg _ _); [|apply fil_wait_one].
+    destruct (wait_times_out _ _); [unfold Fl; simpl; apply mark_racy_files|apply fil_wait_one].
 Qed.
 Lemma fil_skip args st : Fl (cmd_skip args st) = s_files st.
 Proof.
@@ -107,7 +110,7 @@ Proof.
     destruct (can_start _ _ _); [simpl; rewrite mark_racy_files; reflexivity|].
     destruct neg; reflexivity.
   - destruct (can_start _ _ _).
-    + destruct (Bool.eqb _ _); simpl; rewrite mark_racy_files; reflexivity.
+    + destruct (meets _ _); simpl; rewrite mark_racy_files; reflexivity.
     + destruct neg; reflexivity.
 Qed.
 Lemma fil_custom cfg k neg args st : Fl (cmd_custom cfg k neg args st) = s_files st.
@@ -193,9 +196,14 @@ Proof.
   unfold wait_one. simpl. destruct (find_bg (s_bg st) n); [|reflexivity].
   destruct (reap (bg_proc b)) as [p racy]. destruct (status_wrong _), racy; reflexivity.
 Qed.
-Lemma c_wait args st : cmd_wait args (swapfu st t u) = omap sw (cmd_wait args st).
+Lemma c_wait cfg args st : cmd_wait cfg args (swapfu st t u) = omap sw (cmd_wait cfg args st).
 Proof.
-  unfold cmd_wait. destruct args as [|a [|b r]]; [apply c_wait_all|apply c_wait_one|reflexivity].
+  unfold cmd_wait, timed_out_state. destruct args as [|a [|b r]]; [| |reflexivity].
+  - change (s_bg (swapfu st t u)) with (s_bg st).
+    destruct (wait_times_out _ _); [destruct (c_continue cfg); reflexivity|apply c_wait_all].
+  - change (s_bg (swapfu st t u)) with (s_bg st).
+    destruct (find_bg _ _); [|apply c_wait_one].
+    destruct (wait_times_out _ _); [destruct (c_continue cfg); reflexivity|apply c_wait_one].
 Qed.
 Lemma c_skip args st : cmd_skip args (swapfu st t u) = omap sw (cmd_skip args st).
 Proof.
@@ -253,14 +261,16 @@ Proof.
     rewrite (helper_tree_free (removelast (r0 :: rest')) (s_in st) (s_env st) (s_cd st) (s_fs st) Hf').
     rewrite Hf'.
     pose proof (helper_tree_free_fs_any (removelast (r0 :: rest')) (s_in st) (s_env st) (s_cd st) (s_fs st) Hf') as Hfs.
-    cbn [h_fs h_code h_out h_err h_sleeper]. rewrite Hfs. reflexivity.
+    cbn [h_fs h_code h_out h_err h_sleeper]. rewrite Hfs. destruct (c_cancelled cfg); reflexivity.
   - rewrite Hc. destruct (can_start cfg st prog); [|destruct neg; reflexivity].
     change (s_in (swapfu st t u)) with (s_in st). change (s_env (swapfu st t u)) with (s_env st).
     change (s_cd (swapfu st t u)) with (s_cd st). change (s_fs (swapfu st t u)) with t.
     rewrite (helper_tree_free rest (s_in st) (s_env st) (s_cd st) (s_fs st) Hf).
     pose proof (helper_tree_free_fs_any rest (s_in st) (s_env st) (s_cd st) (s_fs st) Hf) as Hfs.
-    cbn [h_fs h_code h_out h_err h_sleeper]. rewrite Hfs.
-    destruct (Bool.eqb _ _), (h_sleeper _); reflexivity.
+    unfold fg_end, fg_racy. cbn [h_fs h_code h_out h_err h_sleeper]. rewrite Hfs.
+    destruct (c_cancelled cfg), (c_deadline cfg), (c_continue cfg),
+      (h_sleeper (helper_run rest (s_in st) (s_env st) (s_cd st) (s_fs st))),
+      (N.eqb (h_code (helper_run rest (s_in st) (s_env st) (s_cd st) (s_fs st))) 0), neg; reflexivity.
 Qed.
 Lemma c_stdin' args st :
   match args with [f] => is_std f | _ => true end = true ->
